@@ -224,3 +224,33 @@ def probe_displacement(facts):
         else:
             out.append(ob("fi.probe", key, loops[0]["loc"], "discharged", "displacement `%s` is incremented with every wrapping probe step and is what states_[probe] is compared with / reduced by" % counter, fn["qname"]))
     return out
+
+
+def single_pass_subtract(facts):
+    """reverse purge: subtract_and_keep_positive_only visits every slot exactly once per purge, from the top of each probe cluster
+    downwards, so that the entries hash_delete() shifts back into a freed slot have already been handled (their counter was
+    reduced when their own slot was visited).  Each visited active slot is either deleted (counter <= amount) or reduced, never
+    examined again: a second comparison of the same slot against `amount` treats an already-reduced survivor as if it still had
+    to lose `amount` and evicts entries whose counter was in (amount, 2 * amount]."""
+    fs = fns_of(facts)
+    out = []
+    for pat, fn in sorted(fs.items()):
+        if fn["name"] != "subtract_and_keep_positive_only":
+            continue
+        loops = [s for s in stmts_of(fn["body"]) if s.get("k") == "For"]
+        if len(loops) < 1:
+            out.append(ob("fi.single-pass", "reverse_purge_hash_map::subtract_and_keep_positive_only:loops", fn["pat"], "unrecognised", "scan loops not found", fn["qname"]))
+            continue
+        for j, lp in enumerate(loops):
+            nested = []
+            walk(lp["b"], lambda n: nested.append(n) if n.get("k") in ("For", "While", "Do", "RangeFor") else None)
+            dels = []
+            walk(lp["b"], lambda n: dels.append(n) if n.get("k") == "Call" and n.get("cname") == "hash_delete" else None)
+            cmps = []
+            walk(lp["b"], lambda n: cmps.append(n) if n.get("k") == "Bin" and n.get("op") in ("<=", "<", ">", ">=") and "amount" in txt(n) else None)
+            key = "reverse_purge_hash_map::subtract_and_keep_positive_only:scan#%d:one-visit-per-slot" % j
+            ok = not nested and len(dels) == 1 and len(cmps) == 1
+            out.append(ob("fi.single-pass", key, lp["loc"], "discharged" if ok else "violated", "each visited slot is compared with the purge amount once and then deleted or reduced" if ok else "the scan body has %d nested loop(s), %d hash_delete call(s) and %d comparison(s) with `amount`: a slot refilled by hash_delete() is examined again although its new occupant already lost `amount` - entries with counter in (amount, 2 * amount] are evicted and their upper bound falls below their true weight" % (len(nested), len(dels), len(cmps)), fn["qname"]))
+    if not out:
+        out.append(ob("fi.single-pass", "anchor", "", "unrecognised", "subtract_and_keep_positive_only not found", ""))
+    return out
